@@ -77,7 +77,7 @@ type Provider struct {
 
 type provider struct {
 	close func() error                      `name:"!!"`
-	begin func() ([]call, error)            `name:"!"`
+	begin func() (*[]call, error)           `name:"!"`
 	end   func(results []returnValue) error `name:"="`
 }
 
@@ -257,10 +257,14 @@ func (p *Provider) Listen() {
 			}
 			continue
 		}
+		// null ends the polling; an empty list is an idle time-out of the caller
+		// (an empty list decodes into a nil slice, hence the pointer)
 		if calls == nil {
 			return
 		}
-		go p.dispatch(calls)
+		if len(*calls) > 0 {
+			go p.dispatch(*calls)
+		}
 	}
 }
 
